@@ -721,6 +721,25 @@ func c17Components(s *Suite, rng *Rng, thorough bool) {
 				st, list, pan := keyproof.VerifExpCheck(gp, names, cloneEnv(envp), "b", "e", "m", "r", bl, c, *pr)
 				return st, list, pan, L{1712, L{gp, dEnv(names, envp), L{strV("b"), strV("e"), strV("m"), strV("r")}, bl, c, dExp(*pr)}}
 			}
+			// every step is an OR-composition whose two challenge shares must XOR to the challenge: a changed share must fail the
+			// structure check at every step (the last one included), otherwise a prover can simulate both branches of that step
+			for i := range proof.InterStepsProofs {
+				for _, which := range []string{"A", "B"} {
+					var cp keyproof.ExpProof
+					jsonClone(proof, &cp)
+					if which == "A" {
+						cp.InterStepsProofs[i].Achallenge = new(gbig.Int).Xor(cp.InterStepsProofs[i].Achallenge, bi(1))
+					} else {
+						cp.InterStepsProofs[i].Bchallenge = new(gbig.Int).Xor(cp.InterStepsProofs[i].Bchallenge, bi(1))
+					}
+					st, list, pan, cs := chk(&cp)
+					csl := cs.(L)
+					s.Add(csl[0].(int), "exp:step-challenge-share-changed", false, csl[1], checkV(st, list, pan))
+					if st && !pan {
+						s.Violate("C17:step-challenge-split-unchecked", fmt.Sprintf("exponentiation proof of %d steps: the %s share of step %d was changed and the structure check still passes", len(proof.InterStepsProofs), which, i), L{gp, c, bl, i, which})
+					}
+				}
+			}
 			c17Component(s, rng, "exp", false, fromSecrets, isTrue, &proof, 10, chk,
 				func() interface{} { var cp keyproof.ExpProof; jsonClone(proof, &cp); return &cp })
 			// a simulated proof (as inside an OR-composition) must be structurally fine; the model must agree on its commitments
